@@ -10,6 +10,7 @@ CONSTANTS
   MaxCount = 2
   TickSteps = {1, 3}
   MaxTracked = 2
+  StaleMark = "ignore"
   SweepCap = 0
   IndexMode = "exact"
 VIEW view
